@@ -200,6 +200,8 @@ class RefPG:
 
 def lock_oracle(ops, obs):
     so, do = obs['shared'], obs['disjoint']
+    if sc.uncanonical(so) or sc.uncanonical(do):
+        return sc.uncanonical(so) or sc.uncanonical(do)
     ssn = sc.snapshots(so, [[], []])
     dsn = sc.snapshots(do, [])
     ref = RefPG()
@@ -346,7 +348,7 @@ class Lock(Stream):
     W = {'import': 4, 'import_direct': 1, 'clone': 2, 'merge': 2, 'del_graph': 2}
 
     def gen(self, rng, tier):
-        n = 150 if tier == 'quick' else 4000
+        n = 400 if tier == 'quick' else 6000
         out = []
         for i in range(n):
             r = rng.random()
@@ -443,7 +445,7 @@ class Lock(Stream):
 
 class Exhaustive(Lock):
     name = 'exhaustive'
-    rule = ('ALL histories of depth <= D (quick D=2 over 20 operations, thorough D=3 over 24 and D=4 over 10) on 2 graph ids x 2 node '
+    rule = ('ALL histories of depth <= D (quick D=2 over 24 operations, thorough D=3 over 24 and D=4 over 10) on 2 graph ids x 2 node '
             'ids x 2 classes x 1 relation x 1 property name; non-trivial = >=2 state-changing steps; distinct by history')
 
     ALPHA = [
@@ -461,7 +463,7 @@ class Exhaustive(Lock):
     def gen(self, rng, tier):
         out = []
         if tier == 'quick':
-            a = self.ALPHA[:20]
+            a = self.ALPHA
             for k in (1, 2):
                 out += [[list(x) for x in t] for t in itertools.product(a, repeat=k)]
         else:
